@@ -1,5 +1,5 @@
 use std::fs::File as SysFile;
-use std::sync::atomic::{AtomicU64, Ordering};
+use std::sync::atomic::{AtomicU64, AtomicUsize, Ordering};
 use std::sync::Arc;
 
 mod arena;
@@ -69,6 +69,10 @@ impl ImmutableMemtables {
 
 pub(crate) struct MemTable {
 	skiplist: Skiplist,
+	/// Arena capacity this memtable was created with.
+	arena_capacity: usize,
+	/// Arena bytes promised to the batches that are being applied right now (see `add`).
+	reserved: AtomicUsize,
 	latest_seq_num: AtomicU64,
 	/// WAL number that was current when this memtable started receiving writes.
 	/// Used to determine which WALs can be safely deleted after flush.
@@ -88,6 +92,8 @@ impl MemTable {
 		let skiplist = Skiplist::new(arena, cmp);
 		MemTable {
 			skiplist,
+			arena_capacity: arena_capacity.min(arena::MAX_ARENA_SIZE),
+			reserved: AtomicUsize::new(0),
 			latest_seq_num: AtomicU64::new(0),
 			wal_number: AtomicU64::new(0),
 		}
@@ -169,20 +175,55 @@ impl MemTable {
 	}
 
 	pub(crate) fn add(&self, batch: &Batch) -> Result<()> {
-		let highest_seq_num = self.apply_batch_to_memtable(batch)?;
+		// All or nothing: a batch that ran out of arena half-way would leave its first
+		// entries in this memtable, which is then rotated and flushed with PART of a
+		// transaction. The tower heights are drawn first, so the exact footprint of the
+		// batch is known; it is reserved before anything is inserted (concurrent appliers
+		// count each other's reservations), and a granted reservation cannot run out.
+		let heights: Vec<u32> = batch.entries.iter().map(|_| self.skiplist.draw_height()).collect();
+		let need = batch
+			.entries
+			.iter()
+			.zip(&heights)
+			.map(|(e, &h)| {
+				Skiplist::alloc_size(h, e.key.len(), e.value.as_ref().map_or(0, |v| v.len()))
+			})
+			.sum::<usize>()
+			+ Skiplist::max_unused_tower();
+
+		let mut reserved = self.reserved.load(Ordering::Acquire);
+		loop {
+			if self.skiplist.size() as usize + reserved + need > self.arena_capacity {
+				return Err(crate::error::Error::ArenaFull);
+			}
+			match self.reserved.compare_exchange_weak(
+				reserved,
+				reserved + need,
+				Ordering::AcqRel,
+				Ordering::Acquire,
+			) {
+				Ok(_) => break,
+				Err(current) => reserved = current,
+			}
+		}
+
+		let result = self.apply_batch_to_memtable(batch, &heights);
+		self.reserved.fetch_sub(need, Ordering::AcqRel);
+
+		let highest_seq_num = result?;
 		self.update_latest_sequence_number(highest_seq_num);
 		Ok(())
 	}
 
 	/// Applies the batch of operations to the in-memory table (memtable).
 	/// Returns (total_record_size, highest_seq_num_used).
-	fn apply_batch_to_memtable(&self, batch: &Batch) -> Result<u64> {
+	fn apply_batch_to_memtable(&self, batch: &Batch, heights: &[u32]) -> Result<u64> {
 		// Pre-allocate empty value Bytes for delete operations to avoid repeated
 		// allocations
 		let empty_val = Value::new();
 
 		// Process entries with pre-encoded ValueLocations
-		for (_i, entry, current_seq_num, timestamp) in batch.entries_with_seq_nums()? {
+		for (i, entry, current_seq_num, timestamp) in batch.entries_with_seq_nums()? {
 			let ikey = InternalKey::new(entry.key.clone(), current_seq_num, entry.kind, timestamp);
 
 			// Use the value directly (cheap Bytes clone), or reuse empty value for deletes
@@ -193,7 +234,7 @@ impl MemTable {
 				empty_val.clone()
 			};
 
-			self.insert_into_memtable(&ikey, &val)?;
+			self.insert_into_memtable(&ikey, &val, heights.get(i).copied())?;
 			#[cfg(surrealkv_verif)]
 			crate::verif::yieldp::yield_point("mem.insert", current_seq_num, batch.count() as u64);
 		}
@@ -206,10 +247,15 @@ impl MemTable {
 
 	/// Inserts a key-value pair into the memtable.
 	/// Returns Err(ArenaFull) if there's not enough space.
-	fn insert_into_memtable(&self, key: &InternalKey, value: &Value) -> Result<()> {
+	fn insert_into_memtable(
+		&self,
+		key: &InternalKey,
+		value: &Value,
+		height: Option<u32>,
+	) -> Result<()> {
 		let trailer = (key.seq_num() << 8) | (key.kind() as u64);
 
-		match self.skiplist.add(&key.user_key, trailer, key.timestamp, value) {
+		match self.skiplist.add_with_height(&key.user_key, trailer, key.timestamp, value, height) {
 			Ok(()) => Ok(()),
 			Err(SkiplistError::RecordExists) => Ok(()), // Duplicate is not an error in memtable
 			Err(SkiplistError::ArenaFull) => Err(crate::Error::ArenaFull),
